@@ -86,16 +86,14 @@ spec fn cursor_loose(p: Parser) -> bool {
     ensures r.input == i && r.output == o && r.context == c && r.except == e,
 //@ end
 //@ contract Parser::get_input_els ret=r
+    // the precondition and every clause after the first are PROVED for the real body of get_input_els in kernel `inels`
+    // (there with get_term opaque); only "it is a function of the parser state" is assumed here
+    requires synced(*old(self)),
     ensures (r, *final(self)) == inels_spec(*old(self)),
-        // ASSUMED about the opaque element parser: it leaves the cursor on a token of the list and does not touch the list
-        final(self).pos < final(self).token_list@.len() && final(self).token_list == old(self).token_list,
-        // ASSUMED (read off the code: InsertErr is constructed in get_input only, ExpectedArrow / ExpectedEndLine in rule only)
+        r is Ok ==> synced(*final(self)),
+        final(self).token_list == old(self).token_list,
         r matches Err(e) ==> !(e is InsertErr) && !(e is ExpectedEndLine) && !(e is ExpectedArrow),
-        // ASSUMED (lexer + element parser): when no input element is found the cursor is on a token the lexer made, and the
-        // lexer never makes a token with an empty spelling -- this is what keeps `value.chars().next().unwrap()` from panicking
-        r matches Ok(v) && v@.len() == 0 ==> final(self).curr_tkn.value@.len() > 0,
-        // ASSUMED: it moves the cursor with advance() only, so `curr_tkn` stays the token under the cursor
-        (r is Ok && synced(*old(self))) ==> synced(*final(self)),
+        r matches Ok(v) && v@.len() == 0 ==> *final(self) == *old(self),
 //@ end
 //@ contract Parser::get_env ret=r
     // the precondition and the three clauses after the first are PROVED for the real body of get_env in kernel `envlist`
@@ -129,7 +127,9 @@ spec fn cursor_loose(p: Parser) -> bool {
 #[verifier::loop_isolation(false)]
 //@ end
 //@ contract Parser::get_input ret=r
-    requires synced(*old(self)),
+    // the first token of a rule line is a token the lexer made, and the lexer never makes a token with an empty spelling
+    // (precondition, not proved: the lexers are outside Verus) -- this is what `value.chars().next().unwrap()` relies on
+    requires synced(*old(self)), old(self).curr_tkn.value@.len() > 0,
     ensures
         // `>`, `=>` and `->` are the documented synonyms of the arrow: whichever is written may follow an insertion input
         /*#follow.either_arrow_may_follow_an_insertion_input C13*/ r matches Err(RuleSyntaxError::InsertErr(t)) ==> !is_arrow(t.kind) && t.kind != TokenKind::Comma,
@@ -138,13 +138,13 @@ spec fn cursor_loose(p: Parser) -> bool {
         r matches Err(e) ==> !(e is ExpectedEndLine) && !(e is ExpectedArrow),
 //@ end
 //@ loop Parser::get_input 0
-    invariant synced(*self), self.token_list == old(self).token_list,
+    invariant synced(*self), self.token_list == old(self).token_list, inputs@.len() == 0 ==> *self == *old(self),
 //@ end
 //@ proof_start Parser::get_input
     axiom_token_clone();
 //@ end
 //@ contract Parser::rule ret=r
-    requires synced(*old(self)),
+    requires synced(*old(self)), old(self).curr_tkn.value@.len() > 0,
     ensures
         /*#follow.either_arrow_is_the_arrow C13*/ r matches Err(RuleSyntaxError::ExpectedArrow(t)) ==> !is_arrow(t.kind),
         // a trailing comment ends a rule wherever the end of the line does
